@@ -13,6 +13,22 @@ NOTE = ('Trusted base: rustc nightly MIR/HIR of the type-checked program at -Zmi
         'check, not a proof of the behavioural property; see coverage.not_decided in the evidence.')
 
 CLAIMS = {
+    'C06': dict(
+        technique='literal tables vs integer oracle; def-use expression reconstruction of fri_formula{2,4,8,16} '
+                  'interpreted in a polynomial abstract domain and compared with the fold specification as a '
+                  'polynomial identity; guard-table agreement (accepted steps vs fold arms); leaf-set dataflow',
+        text='Decides for ALL inputs that each fold arm equals 2^k*sum_j b^j*P_j(y) (polynomial identity over F_p '
+             'from the MIR of the four formulas), that the order-16 group / OMEGA literals are the right roots of '
+             'unity, that accepted step sizes and fold arms agree, and the per-iteration structure of coset '
+             'gathering and the last-layer check. End-to-end completeness over all query sets is not decided.',
+        ref='4 C06'),
+    'C12': dict(
+        technique='literal table vs integer oracle (generator test over the prime factors of p-1) + def-use '
+                  'expression reconstruction of StarkDomains::new compared with the closed forms',
+        text='Proves by a two-part static argument (3 generates F_p^*, exponents are (p-1)/2^(t+c) and (p-1)/2^t '
+             'as reconstructed from MIR) that generator orders are exact for every (t,c) with t+c<=192, without '
+             'enumeration. Correctness of pow_felt/field_div in the external crate is assumed.',
+        ref='4 C12'),
     'C16': dict(
         technique='HIR abstract interpretation of the 14 generated evaluators (accumulator linearity, '
                   'index-set exhaustiveness, per-term dependency closure) + MIR leaf-set dataflow on stark_commit',
